@@ -36,10 +36,6 @@
         mk_instant(s, n)
     }
 
-    fn ns(d: Duration) -> u128 {
-        ((d.as_secs() as u128) * 1_000_000_000u128 + (d.subsec_nanos() as u128)) as u128
-    }
-
     fn tag(s: &AutoTaskState) -> u8 {
         match s { AutoTaskState::Idle => 0, AutoTaskState::Pending => 1, AutoTaskState::Failed(_, _) => 2 }
     }
@@ -95,7 +91,7 @@
         std::mem::forget(s0); std::mem::forget(s); std::mem::forget(d);
     }
 
-    // @harness ids=C17,C01 tier=quick kind=proof stubs=1 units=master::association::AutoTaskState::failure timeout=300 note="a failure in any state yields Failed(backoff, now+delay): from Idle/Pending a fresh back-off of the configured strategy with delay = min; from Failed the same strategy with delay = min(2*last,max) (spec backoff_next_ns); retry instant is exactly now+delay; clock stubbed"
+    // @harness ids=C17,C01 tier=quick kind=proof stubs=1 units=master::association::AutoTaskState::failure timeout=300 note="a failure in any state yields Failed(backoff, now+delay): from Idle/Pending a fresh back-off of the configured strategy with delay = min; from Failed the same strategy with delay = min(2*last,max) (spec backoff_next_sn); retry instant is exactly now+delay; clock stubbed"
     #[kani::proof]
     #[kani::stub(tokio::time::Instant::now, stub_now)]
     fn vk_c17_autotask_failure() {
@@ -113,9 +109,9 @@
             (AutoTaskState::Failed(b0, _), AutoTaskState::Failed(b, t)) => {
                 let (min, max) = (bk::min_of(b0), bk::max_of(b0));
                 let (has_last, last) = match bk::last_of(b0) { Some(l) => (true, l), None => (false, Duration::from_secs(0)) };
-                let want = spec::backoff_next_ns(ns(min), ns(max), has_last, ns(last));
+                let (ws, wn) = spec::backoff_next_sn(min.as_secs(), min.subsec_nanos(), max.as_secs(), max.subsec_nanos(), has_last, last.as_secs(), last.subsec_nanos());
                 let delay = bk::last_of(b).unwrap();
-                assert!(ns(delay) == want);
+                assert!(delay.as_secs() == ws && delay.subsec_nanos() == wn);
                 assert!(min <= delay && delay <= max);
                 assert!(bk::min_of(b) == min && bk::max_of(b) == max);
                 assert!(t.checked_duration_since(now) == Some(delay));
